@@ -23,7 +23,57 @@ def run_cases(run, cases, oracle, nontrivial, sample=None, layers=(1, 2, 3)):
             run.sample(sample(c, r) if sample else {"options": c.get("options"), "sched_prefix": c.get("sched", [])[:20],
                                                      "outcome": r.get("outcome"), "tasks": len(r.get("graph") or [])})
     run.coverage["traces_validated_against_impl"] = len([c for c in cases if results.get(c["id"], {}).get("graph")])
+    search_failing_schedule(run, cases, oracle, results)
     return results
+
+
+def search_failing_schedule(run, cases, oracle, results=None, tries=60):
+    """DESIGN 2.2: when a correspondence broke and no oracle hit was found on the generated schedules, the projects on which the
+    model and the implementation differ are re-run under many more adversarial schedules and thread counts, looking for a
+    concrete run on which the property itself fails."""
+    import copy
+    import projgen
+    if run.oracle_hits:
+        return
+    suspects = []
+    for b in run.broken:
+        c = b.get("case") if isinstance(b, dict) else None
+        if b.get("kind") == "correspondence" and isinstance(c, dict) and "project" in c and c not in suspects:
+            suspects.append(c)
+    # projects whose implementation task graph does not enforce an ordering the properties need come first
+    import runoracle
+    structural = []
+    for c in cases:
+        g = ((results or {}).get(c["id"]) or {}).get("graph")
+        v = runoracle.graph_structure_violations(g) if g else []
+        if v:
+            # a fixture / hook teardown that does not wait for a test is the most promising for every run property
+            score = sum(3 for x in v if "Teardown" in x[2][0]) + len(v)
+            structural.append((score, c))
+    structural = [c for _, c in sorted(structural, key=lambda sc: -sc[0])]
+    if structural:
+        run.count("projects_with_unordered_task_pairs", len(structural))
+        run.notes.append("task pairs left unordered by the implementation's graph, e.g. %s" % (
+            runoracle.graph_structure_violations((results or {}).get(structural[0]["id"])["graph"])[:2],))
+    suspects = structural[:3] + [c for c in suspects if c not in structural][:3]
+    if not suspects:
+        return
+    variants = []
+    for k, c in enumerate(suspects[:6]):
+        base = next((x for x in cases if x["id"] == c.get("id")), None) or c
+        for j in range(tries // max(1, min(3, len(suspects)))):
+            v = copy.deepcopy(base)
+            v["id"] = "search%d_%d" % (k, j)
+            v.setdefault("options", {})
+            v["options"]["nb_threads"] = run.rng.choice([2, 2, 3, 4])
+            v["sched"] = projgen.gen_sched(run.rng, kind=run.rng.choice(["random", "last", "bursts", "zeros"]))
+            variants.append(v)
+    res = sim.run_cases(variants)
+    run.count("schedules_searched_after_broken_tie", len(variants))
+    for v in variants:
+        r = res.get(v["id"]) or {"outcome": ["hang", "no result"]}
+        for sig, text in oracle(v, r):
+            run.violation(sig, text, {"case": v, "outcome": r.get("outcome"), "found_by": "schedule search after a broken correspondence"})
 
 
 def make_replay(oracle):
